@@ -712,7 +712,13 @@ func (d MarchingCanvas) March(cutoff float64) modeling.Mesh {
 func (d MarchingCanvas) MarchOnAttribute(attribute string, cutoff float64) modeling.Mesh {
 	for sectionAttribute, section := range d.sections {
 		if section.dataType == Float1 && sectionAttribute == attribute {
+			// Blocks share vertices on a 4 decimal grid in cell units, first
+			// position seen wins; weld on that same grid across blocks before
+			// scaling, or two blocks that kept different representatives of
+			// one crossing can end up on either side of the coarser world
+			// space rounding below and leave the seam between them open.
 			return d.marchFloat1(cutoff, sectionAttribute, section).
+				WeldByFloat3Attribute(sectionAttribute, 4).
 				Transform(
 					meshops.ScaleAttribute3DTransformer{
 						Amount: vector3.One[float64]().DivByConstant(d.cubesPerUnit),
@@ -736,6 +742,7 @@ func (d MarchingCanvas) MarchOnAttributeParallel(attribute string, cutoff float6
 				return marched
 			}
 			return marched.
+				WeldByFloat3Attribute(sectionAttribute, 4).
 				Transform(
 					meshops.ScaleAttribute3DTransformer{
 						Amount: vector3.One[float64]().DivByConstant(d.cubesPerUnit),
